@@ -647,9 +647,164 @@ def sb_correspondence(ck, ref):
 
 
 
+# ------------------------------------------------------------------------------------------------ the runtime list template
+def list_extra():
+    gen = os.path.join(vlib.BUILD, 'gen', 'list_Pt.c')
+    h = hashlib.sha256(open(gen, 'rb').read()).hexdigest()[:16]
+    return ['-DLIST_PT_C="%s"' % gen, '-I' + os.path.join(vlib.BUILD, 'gen'), '-DLIST_HASH=0x%s' % h]
+
+
+def gen_list_history(rng, maxlen, init, growth, stats):
+    """one history on the list template: insert at 0 / middle / end, remove, set, get, pop, push, clear with the length driven to
+    capacity-1, capacity, capacity+1 of every step of the growth sequence (capacity tracked exactly from the measured INITIAL/GROWTH)"""
+    eng = rng.choice(['int', 'int', 'str', 'gen'])
+    c0 = rng.choice([None, None, None, 0, 1, 3, 7, 8, 9, 17])
+    if c0 is None:
+        lines = ['lnew ' + eng]; cap = init
+    else:
+        lines = ['lcap %s %d' % (eng, c0)]; cap = c0
+    st = dict(n=0, cap=cap)
+
+    def grow(m):
+        if st['cap'] >= m: return
+        c = st['cap'] or init
+        while c < m: c *= growth
+        st['cap'] = c
+
+    def val():
+        return rng.choice([0, 1, 0x7fffffffffffffff, 0xffffffffffffffff]) if rng.random() < 0.2 else rng.getrandbits(rng.choice([8, 32, 64]))
+
+    def cls():
+        c = st['cap']
+        if c and st['n'] == c - 1: return 'cap-1'
+        if st['n'] == c: return 'cap'
+        if c > init and st['n'] == c // growth + 1: return 'cap+1'
+        return 'other'
+
+    def insert(where=None):
+        n = st['n']; where = where or rng.choice(['front', 'middle', 'end'])
+        i = 0 if where == 'front' or n == 0 else n if where == 'end' else rng.randrange(1, n) if n > 1 else 0
+        stats['list:insert:%s:%s' % ('front' if i == 0 else 'end' if i == n else 'middle', cls())] += 1
+        grow(n + 1); lines.append('ins %d %x' % (i, val())); st['n'] += 1
+
+    def push():
+        stats['list:push:%s' % cls()] += 1
+        grow(st['n'] + 1); lines.append('push %x' % val()); st['n'] += 1
+
+    L = rng.randrange(8, maxlen + 1)
+    while len(lines) < L:
+        r = rng.random(); n = st['n']
+        if r < 0.28:
+            want = rng.choice(['cap-1', 'cap', 'cap+1'])
+            c = st['cap'] or init
+            target = {'cap-1': c - 1, 'cap': c, 'cap+1': c + 1}[want]
+            if target > 150: target = rng.choice([7, 8, 9])
+            while st['n'] < target: (push if rng.random() < 0.5 else insert)()
+            while st['n'] > target:
+                lines.append(rng.choice(['pop', 'rm %d' % rng.randrange(st['n'])])); st['n'] -= 1
+            insert(rng.choice(['front', 'middle', 'middle', 'end']))
+            lines.append('get %d' % rng.randrange(st['n']))
+        elif r < 0.40: insert()
+        elif r < 0.50: push()
+        elif r < 0.58 and n:
+            lines.append('rm %d' % rng.choice([0, n - 1, rng.randrange(n)])); st['n'] -= 1; stats['list:remove'] += 1
+        elif r < 0.64 and n:
+            lines.append('pop'); st['n'] -= 1; stats['list:pop'] += 1
+        elif r < 0.72 and n:
+            lines.append('set %d %x' % (rng.randrange(n), val())); stats['list:set'] += 1
+        elif r < 0.80 and n:
+            lines.append('get %d' % rng.randrange(n)); stats['list:get'] += 1
+        elif r < 0.84: lines.append(rng.choice(['len', 'cap', 'empty']))
+        elif r < 0.86:
+            lines.append('clear'); st['n'] = 0; stats['list:clear'] += 1
+        elif r < 0.90:
+            # the defined stop: index outside the list / pop of the empty list -> "Error: ..." exit(1)
+            bad = rng.choice(['get %d' % n, 'get -1', 'set %d 1' % n, 'rm %d' % n, 'ins %d 1' % (n + 1), 'ins -1 1'] + (['pop'] if n == 0 else []))
+            lines.append(bad); stats['list:exit_expected'] += 1
+            break
+    stats['list:histories'] += 1; stats['list:engine:' + eng] += 1
+    return lines
+
+
+def list_correspondence(ck, ref):
+    from collections import Counter
+    stats = Counter()
+    rng = ck.rng
+    inv = json.load(open(os.path.join(vlib.BUILD, 'gen', 'list_inventory.json')))
+    init, growth = inv['initial_capacity'], inv['growth_factor']
+    probe = ck.probe('list_probe.c', 'asan', extra=list_extra())
+    # the shape of the third-round seeded change: insert into a FULL list at an index that is not the end (8, 16, 32 elements)
+    hist = []
+    for eng in ('int', 'str', 'gen'):
+        for full in (8, 16, 32):
+            hist.append(['lnew ' + eng] + ['push %x' % (i + 1) for i in range(full)] + ['ins 3 aa', 'get 3', 'get %d' % full, 'ins 0 bb', 'rm 4', 'len'])
+    hist.append(['lnew int'] + ['ins %d %x' % (i, v) for i, v in zip([0, 1, 0, 2, 4, 1, 4, 7, 3, 7, 1, 6], [3, 8, 0, 5, 10, 2, 7, 12, 4, 9, 1, 6])] + ['cap'])
+    nh, maxlen = (2500, 400) if ck.thorough else (400, 200)
+    for _ in range(nh):
+        hist.append(gen_list_history(rng, maxlen, init, growth, stats))
+    lines = [l for h in hist for l in h]
+    rc, o, e = vlib.sh([probe], input=('\n'.join(lines) + '\n').encode(), timeout=900, env=ASAN_ENV)
+    impl = o.splitlines()
+    model = vlib.run_lines(ref, lines, timeout=900)
+    sl = san_lines(e)
+    if rc != 0 or sl or len(impl) != len(lines):
+        k = len(impl); pos, hh = 0, None
+        for h in hist:
+            if pos + len(h) > k: hh = h[:k - pos + 1]; break
+            pos += len(h)
+        ck.fail('c20:list:crash:' + hashlib.sha256('\n'.join(hh or []).encode()).hexdigest()[:12],
+                'list_probe died / sanitizer report on a history the model calls defined (rc=%s) at "%s": %s' % (rc, lines[k] if k < len(lines) else '?', '; '.join(sl[:2])),
+                dict(part='list', history=hh, stderr=e[-3000:], engine='list_probe(asan)', model_says=model[k] if k < len(model) else None))
+    pos = 0; bad = 0
+    for h in hist:
+        hi = impl[pos:pos + len(h)]; hm = model[pos:pos + len(h)]
+        ck.count(('list', tuple(h)), len(h) >= 5 and any(' cap=' in x and ' cap=%d ' % init not in x and ' cap=0 ' not in x for x in hm), n=len(hi))
+        for j, (a, m) in enumerate(zip(hi, hm)):
+            if a != m:
+                bad += 1
+                ck.fail('c20:list:' + hashlib.sha256('\n'.join(h[:j + 1]).encode()).hexdigest()[:12],
+                        'runtime list differs from the model after "%s" (%s): impl=%s model=%s' % (h[j], h[0], a[:200], m[:200]),
+                        dict(part='list', history=h[:j + 1], expected_model=m, observed_impl=a, correspondence='list_probe vs nvref_c20'))
+                break
+        pos += len(h)
+        if bad > 8: break
+    if any('ABS-MISMATCH' in m or 'RINV-BROKEN' in m or m.startswith('crash') for m in model):
+        k = next(i for i, m in enumerate(model) if 'ABS-MISMATCH' in m or 'RINV-BROKEN' in m or m.startswith('crash'))
+        ck.fail('c20:list:model-selfcheck', 'extracted list model: concrete and abstract step disagree / invariant / crash at "%s": %s' % (lines[k], model[k][:200]), dict(part='list', line=lines[k]))
+    # every list_*.c must be either an instance of the probed template or probed itself
+    notcovered = [d['file'] for d in inv['different'] if d['file'] != 'list_string.c']
+    if notcovered or not inv['generated_script_is_template']:
+        ck.fail('c20:list:not-the-template:' + ','.join(notcovered or ['generate_list.sh']),
+                'runtime list file(s) whose text deviates from the template the other %d list files share (list_int.c is the probed and modelled instance): %s' % (
+                    len(inv['template_instances']), notcovered or 'scripts/generate_list.sh output'), dict(part='list', files=notcovered))
+    stats['list:lines'] = len(lines)
+    k = next((i for i, l in enumerate(lines) if l.startswith('ins 3 aa')), 3)
+    ck.sample(dict(op=lines[k], impl=impl[k] if k < len(impl) else None, model=model[k]))
+    return dict(stats), inv
+
+
+RUNTIME_INVENTORY = {
+    'src/runtime/dyn_array.c': 'MODELLED (NV.Runtime.DynArray, refinement + invariant) + probe dyn_probe + native shapes arr_ops_*, self_ref_*, structs, nested_arrays',
+    'src/runtime/gc.c': 'MODELLED without children (NV.Runtime.Gc) + probe gc_probe (3 engines); gc_mark / finalizers only through native runs (gc_tail, NANO_GC_THRESHOLD_MB=1; the gc_mark-over-inline-structs finding is fixed by 749aa39)',
+    'src/runtime/gc_struct.c': 'NOT MODELLED; compiled into every native program but only reached through gc_mark/gc_destroy of GC_TYPE_STRUCT objects, which emitted code does not allocate (structs are C values); exercised only by the native runs',
+    'src/runtime/list_int.c': 'MODELLED (NV.Runtime.ListRt, refinement to the plain list + invariant) + probe list_probe engine int + native shape lists_int',
+    'src/runtime/list_string.c': 'same template with strdup/free of elements: probe list_probe engine str against the same model + native shape lists_string; 2 open findings on the ownership of strings handed out by list_string_get',
+    'src/runtime/list_token.c, list_LexerToken.c, list_AST*.c, list_Compiler*.c (38 files)': 'TEXT-IDENTICAL to list_int.c up to element type / identifier prefix: checked on every run by tools/gen/gen_listrt.py (build/gen/list_inventory.json); a file that stops being the template fails the check (c20:list:not-the-template)',
+    'scripts/generate_list.sh output (List<UserStruct> without a runtime file)': 'same template (checked); compiled into list_probe as engine gen with a 16-byte struct',
+    'inline List<UserStruct> specialisation emitted by src/transpiler.c (nl_list_T_new/push/get/set/length, capacity 4, doubling)': 'generator-covered only: native shape lists_struct (push/get/set/length across 4/8/16/32); get has no bounds test -> open finding c20:native:asan:list_generic_get:index-out-of-range',
+    'emitted string builder nl_fmt_sb_* (src/stdlib_runtime.c)': 'MODELLED (NV.Runtime.FmtSb, growth rule read from the emitted text) + probe sb_probe + native shape fmt_composite',
+    'emitted helpers of src/stdlib_runtime.c (nl_array_slice, nl_str_*, int/float text, path_*, bytes)': 'nl_array_slice inside the DynArray model; the others generator-covered: native shapes buffers, str_loop, str_array_calls (see buffer_sites)',
+    'emitted HashMap<K,V> specialisations (src/transpiler.c)': 'generator-covered: native shape hashmap (the 5 string-ownership findings are fixed by 855352b)',
+    'src/runtime/hashmap_bootstrap.c': 'OUT OF SCOPE: not in the runtime list nanoc links into native programs (used by the self-hosted compiler bootstrap only)',
+    'src/runtime/nl_string.c': 'linked into every native program but no emitted code calls nl_string_* (strings are char* from gc_alloc_string): not reached by accepted core programs; not modelled',
+    'src/runtime/cli.c, regex.c, token_helpers.c, ffi_loader.c, sdl_helpers.c, schema_lists.c': 'OUT OF SCOPE: command-line / regex module / self-hosting / FFI helpers reached only through module imports or extern declarations, not by core-language programs',
+}
+
+
+
 def run(ck):
     b = ck.build('plain')
-    ck.gen(['gen_rtparams', 'gen_fmtsb'])
+    ck.gen(['gen_rtparams', 'gen_fmtsb', 'gen_listrt'])
     FLAGS.update(measured_flags())
     c20_native.PUSH_OWN_STRUCT_SAFE = FLAGS['push_self_safe']
     ck.extra['measured_flags'] = dict(FLAGS)
@@ -662,6 +817,9 @@ def run(ck):
     n1 = ck.cov['evaluations']
     ck.extra['gc'] = gc_correspondence(ck, ref)
     ck.extra['string_builder'] = sb_correspondence(ck, ref)
+    ck.extra['list'], linv = list_correspondence(ck, ref)
+    ck.extra['runtime_inventory'] = dict(RUNTIME_INVENTORY, list_files_checked=dict(template_instances=len(linv['template_instances']), different=[d['file'] for d in linv['different']],
+                                                                                      generate_list_sh_is_template=linv['generated_script_is_template']))
     n2 = ck.cov['evaluations']
     rule_native = c20_native.native(ck, b)
     ck.extra['evaluations_by_part'] = dict(dyn=n1, gc=n2 - n1, native=ck.cov['evaluations'] - n2)
@@ -675,12 +833,15 @@ def run(ck):
                       'gc: generated alloc/retain/release/is_managed/collect histories (well-behaved with raw retain; and with stale releases of freed '
                       'handles + guarded retain) on three engines (ASan, ASan without quarantine = address reuse, plain build); list order, reference '
                       'counts, set membership and statistics compared after every operation; non-trivial = some object released to zero.  '
+                      'list: the runtime list template (list_int.c, list_string.c, generate_list.sh output) on histories of push / pop / insert front-middle-end / remove / set / get / clear '
+                      'with the length at capacity-1 / capacity / capacity+1 of every growth step, contents and capacity compared after every operation.  '
                       'sb: the emitted string builder nl_fmt_sb_* (helper text compiled into sb_probe) on append histories whose needed size lands on capacity-1 / capacity / '
                       'capacity+1 / 2*capacity(+1) / 4*capacity+1 and pieces 0..5000; len, cap, NUL, strlen and a hash of the text compared after every append.  '
                       'native: ' + (rule_native or ''))
     ck.trusted += ['translator tools/gen/dump_rtparams.c + gen_rtparams.py (constants measured by calling dyn_array.c; text of nl_array_slice taken from generate_math_utility_builtins)',
                    'extraction: ExtrOcamlBasic only; extract/nvio.ml, nvio_z.ml, c20_driver.ml',
                    'probes/dyn_probe.c (values passed as raw 64-bit patterns; string/array elements are opaque pointers, never dereferenced by dyn_array.c)',
+                   'translator tools/gen/dump_listrt.c + gen_listrt.py (list constants measured by calling list_int.c; textual identity of the other list files by normalising identifiers); probes/list_probe.c #includes the three list sources with exit() redirected',
                    'translator tools/gen/dump_fmtsb.c + gen_fmtsb.py (growth rule and constants of nl_fmt_sb_ensure read from the emitted text by pattern; the remaining tokens compared with a template); probes/sb_probe.c compiles that text',
                    'probes/gc_probe.c (#includes gc.c to read the private gc_state; allocation addresses are reported by the probe and fed to the model)',
                    'tools/props/c20_native.py (program generator with a Python model of the expected stdout; cc -fsanitize=address,undefined,float-cast-overflow)']
@@ -696,8 +857,19 @@ def replay(ck, d):
     if d.get('key', '').startswith('c20:native:') or 'program' in d:
         ck.build('plain')
         return c20_native.replay_native(ck, d)
-    ck.build('plain'); ck.gen(['gen_rtparams', 'gen_fmtsb'])
+    ck.build('plain'); ck.gen(['gen_rtparams', 'gen_fmtsb', 'gen_listrt'])
     ref = ck.nvref('c20')
+    if d.get('part') == 'list':
+        probe = ck.probe('list_probe.c', 'asan', extra=list_extra())
+        h = d.get('history') or []
+        rc, o, e = vlib.sh([probe], input=('\n'.join(h) + '\n').encode(), timeout=60, env=ASAN_ENV)
+        impl = o.splitlines(); model = vlib.run_lines(ref, h)
+        for l, a, m in zip(h, impl + ['<died>'] * len(h), model):
+            print('%-14s impl : %s\n%-14s model: %s' % (l, a[:150], '', m[:150]))
+        print('rc=%s' % rc); print('\n'.join(san_lines(e)))
+        same = rc == 0 and impl == model
+        print('REPRODUCED' if not same else 'not reproduced')
+        return 0 if same else 1
     if d.get('part') == 'sb':
         probe = ck.probe('sb_probe.c', 'asan', extra=sb_extra())
         h = d.get('history') or []
